@@ -2,6 +2,8 @@ package core
 
 import (
 	"go/ast"
+	"go/printer"
+	"go/token"
 	"go/types"
 	"strings"
 
@@ -98,6 +100,42 @@ func Callee(info *types.Info, c *ast.CallExpr) *types.Func {
 	return nil
 }
 
+// CalleeObj is Callee extended to package-level function variables
+// (`var begin = pkg.Begin` … `begin()`): the variable object is returned.
+func CalleeObj(info *types.Info, c *ast.CallExpr) types.Object {
+	if f := Callee(info, c); f != nil {
+		return f
+	}
+	if v, ok := typeutil.Callee(info, c).(*types.Var); ok && v.Pkg() != nil && v.Parent() == v.Pkg().Scope() {
+		return v
+	}
+	return nil
+}
+
+// MatchesObj matches a function or a package-level function variable.
+func (r Ref) MatchesObj(o types.Object) bool {
+	switch x := o.(type) {
+	case *types.Func:
+		return r.Matches(x)
+	case *types.Var:
+		if r.Recv != "" || r.AnyRecv || x.Name() != r.Name || x.Pkg() == nil {
+			return false
+		}
+		pp := x.Pkg().Path()
+		return pp == r.Pkg || pp == ModPath+"/"+r.Pkg
+	}
+	return false
+}
+
+func (rs Refs) MatchesObj(o types.Object) bool {
+	for _, r := range rs {
+		if r.MatchesObj(o) {
+			return true
+		}
+	}
+	return false
+}
+
 // CallOpt controls how a node is searched for calls.
 type CallOpt int
 
@@ -167,7 +205,7 @@ func HasCall(info *types.Info, n ast.Node, refs Refs, opt CallOpt) bool {
 func (f *Func) FindCalls(refs Refs) []*ast.CallExpr {
 	var out []*ast.CallExpr
 	EachCall(f.Body, Deep, func(c *ast.CallExpr) {
-		if refs.Matches(Callee(f.Info(), c)) {
+		if refs.MatchesObj(CalleeObj(f.Info(), c)) {
 			out = append(out, c)
 		}
 	})
@@ -301,4 +339,18 @@ func FieldOf(info *types.Info, e ast.Expr) string {
 		name = n.Obj().Name()
 	}
 	return name + "." + se.Sel.Name
+}
+
+// ExprStr2 renders any node (statement or expression) compactly on one line.
+func ExprStr2(n ast.Node) string {
+	if e, ok := n.(ast.Expr); ok {
+		return types.ExprString(e)
+	}
+	var sb strings.Builder
+	printer.Fprint(&sb, token.NewFileSet(), n)
+	s := sb.String()
+	if i := strings.IndexByte(s, '\n'); i >= 0 {
+		s = s[:i] + " …"
+	}
+	return s
 }
